@@ -142,8 +142,11 @@ def value_equality(chk, r, tier):
         cases.append((list(q), [q[0] + r.choice((0, 1)), q[1] + 1]))
     for a, b in cases:
         want = (a[0] == b[0] and a[1] == b[1])
-        for sa in subs:
-            for sb in subs:
+        # quick: the pairs that differ in kind (float / int) and in width; thorough: all 25 (every new pair compiles the kernels anew)
+        pairs = [(sa, sb) for sa in subs for sb in subs] if tier != "quick" else \
+            [("float64", "float64"), ("float64", "float32"), ("float32", "float64"), ("float64", "int64"), ("int32", "float32"), ("int16", "int64")]
+        for sa, sb in pairs:
+            if True:
                 if (not sa.startswith("float") or not sb.startswith("float")) and any(str(v).startswith("-0") for v in a + b):
                     continue
                 try:
